@@ -209,4 +209,41 @@ theorem C10_include_splices (C : Cfg) (recI) (recU) (inp : Input) (s path : Byte
        rw [e2] at heq
        exact ⟨_, _, _, heq, by simp only [skipPush_out, skipPushAll_out], rfl⟩)
 
+
+/-! ### C11: nothing else touches the table -/
+
+theorem pushLoc_defines' (inp : Input) (path : Bytes) (w : WState) (x : Tree) : (pushLoc inp path w x).defines = w.defines := by
+  unfold pushLoc; split <;> rfl
+
+/-- **frame**: on entering a node whose kind is none of `undef, `undefineall, `define, `include, macro usage, the define table is unchanged —
+    text, strings, kept directives, conditionals (which only grow the skip list), white space, comments, `__FILE__ / `__LINE__ never touch it.
+    Together with `C11_define_arm`, `C11_undef_arm`, `C11_undefineall_arm`, `C10_include_splices` and `C05_usage_arm` this lists every way the
+    table can change during a run. -/
+theorem C11_table_frame (C : Cfg) (recI) (recU) (inp : Input) (s path : Bytes) (ii sc : Bool) (rd id : Nat) (w w' : WState) (x : Tree)
+    (h1 : (x.baseKind == C.K.undefine) = false) (h2 : (x.baseKind == C.K.undefineall) = false)
+    (h3 : (x.baseKind == C.K.textMacroDefinition) = false) (h4 : (x.baseKind == C.K.includeDirective) = false)
+    (h5 : (x.baseKind == C.K.textMacroUsage) = false)
+    (h : enterStep C recI recU inp s path ii sc rd id w x = .ok w') : w'.defines = w.defines := by
+  unfold enterStep at h
+  dsimp only at h
+  simp only [h1, h2, h3, h4, h5, Bool.false_and, Bool.false_eq_true, if_false] at h
+  unfold armNotDirective armStrLike armKept armCond armWhiteSpace armComment armPosition at h
+  dsimp only at h
+  repeat' split at h
+  all_goals first
+    | (cases h; done)
+    | (injection h with h; subst h
+       first
+         | rfl
+         | exact pushLoc_defines' _ _ _ _
+         | (simp only [skipPushAll_defines, skipPush_defines, pushLoc_defines']; done)
+         | (dsimp only; simp only [skipPushAll_defines, skipPush_defines, pushLoc_defines']))
+
+/-- **frame for the whole skipped region**: while the walker is skipping (inside a dead branch, a `define, an `include or a usage), events whose
+    node is not on the skip list leave the whole state — table included — untouched (`walk_skipping`); so only active regions contribute -/
+theorem C11_skipped_events_inert (C : Cfg) (inp : Input) (s path : Bytes) (ii sc : Bool) (rd id : Nat) (evs es : List Event) (fuel : Nat) (w : WState)
+    (hs : w.skip = true) (hn : ∀ e ∈ es, w.skipNodes.contains (evNode e) = false) :
+    walk C (fuel + es.length) inp s path ii sc rd id (es ++ evs) w = walk C fuel inp s path ii sc rd id evs w :=
+  walk_skipping C inp s path ii sc rd id evs es fuel w hs hn
+
 end Sv
